@@ -26,6 +26,8 @@ class C02Suite(cc.ChainSuite):
         if i["final"] is None:
             return ["final: no final state reported"]
         st, val, hv = i["final"]
+        T = case["lines"][0].split()[3]
+        exp = cc.expected_result(case, i, T)     # the winner's payload: what "the complete result" is
         for w, n in i["released"].items():
             if n == 0:
                 msgs.append("lost: waiter w%d was never released" % w)
@@ -40,6 +42,14 @@ class C02Suite(cc.ChainSuite):
                         msgs.append("result: waiter w%d saw %s, final %s" % (w, o, hv))
                 elif o != val:
                     msgs.append("result: waiter w%d observed %s, the result is %s" % (w, o, val))
+                if exp is not None:
+                    if o.startswith("hv:"):
+                        if o != "hv:" + ("0" if exp == "canceled" else "1"):
+                            msgs.append("result: waiter w%d saw has_value()=%s, the winner supplied %s" % (w, o[3:], exp))
+                    elif o != "notready" and o != exp:
+                        msgs.append("result: waiter w%d observed %s, the winner supplied %s" % (w, o, exp))
+        if i["counted"] and not i["counted"].endswith("=0"):
+            msgs.append("result: the released waiters were shown a value that was constructed/destroyed unevenly (%s)" % i["counted"])
         return msgs
 
 
